@@ -476,13 +476,20 @@ VARIANTS = [
        "        self._ignore.set_line(final_line, True)\n"
        "        if line != final_line:\n"
        "          self._ignore.set_line(line, True)\n", "silent"),
-    {"name": "twin-ignore-guard-clause-and-helper", "rule": "R3.23", "expect": "silent", "edits": [
+    {"name": "twin-ignore-guard-clause-and-start-line-helper", "rule": "R3.23", "expect": "silent", "edits": [
+        (DIR, "    final_line = line_range.start_line\n    if is_ignore:\n",
+         "    final_line = self._first_line(line_range)\n    if is_ignore:\n"),
         (DIR, "      if open_ended:\n        self._ignore.start_range(line, True)\n      else:\n" + _TY,
          "      if open_ended:\n        self._ignore.start_range(line, True)\n        return\n"
-         "      self._ignore_lines(line, final_line)\n      return\n"),
+         "      self._ignore.set_line(line, True)\n      self._ignore.set_line(final_line, True)\n      return\n"),
         (DIR, "  def _process_pytype(\n",
-         "  def _ignore_lines(self, own, first):\n    self._ignore.set_line(own, True)\n"
-         "    self._ignore.set_line(first, True)\n\n  def _process_pytype(\n")]},
+         "  def _first_line(self, line_range):\n    return line_range.start_line\n\n  def _process_pytype(\n")]},
+    # a helper that does the writes is followed (R3.7 does not follow it: only the fire side is declared)
+    {"name": "ignore-lines-helper-skips-start-line-of-statements", "rule": "R3.23", "expect": "fire", "edits": [
+        (DIR, _TY, "        self._ignore_lines(line, final_line, isinstance(line_range, parser.Call))\n"),
+        (DIR, "  def _process_pytype(\n",
+         "  def _ignore_lines(self, own, first, in_call):\n    self._ignore.set_line(own, True)\n"
+         "    if in_call:\n      self._ignore.set_line(first, True)\n\n  def _process_pytype(\n")]},
     _v("twin-disable-both-lines-unconditionally", _DI,
        "          lines.set_line(final_line, disable)\n"
        "          lines.set_line(line, disable)\n", "silent"),
